@@ -14,6 +14,8 @@
 (*         direct path one step, rotated path Inner / TurnTheta / TurnPhi / Finish  *)
 (*  box  : corner deviates of a lon/lat box                                         *)
 (*  gen  : two seeded generators drawing in any interleaving                        *)
+(*  law  : the summary / block / sorting laws that decide large draws, checked on   *)
+(*         every small sequence;  scale : the large cases themselves (export only)  *)
 EXTENDS Sampler, Json, SequencesExt
 
 CONSTANTS XVals, MaxNodes, PVals, UDen,     \* smp: abscissae, node count 2..MaxNodes, densities, u = j/UDen
@@ -27,6 +29,8 @@ CONSTANTS XVals, MaxNodes, PVals, UDen,     \* smp: abscissae, node count 2..Max
           FixedRadius,                      \* cap mechanism: TRUE = radii converted once (repaired code)
           BoxLonCodes, BoxLatCodes,
           GenSeeds, GenMax,
+          LawMax, LawLen,                   \* law: index values -1..LawMax, sequences up to LawLen
+          ScaleNs, IdxScaleImax, SmpScaleNs, \* scale: numbers of points / index ranges / sampler draws
           Families,                         \* which families to explore
           DoExport
 
@@ -253,6 +257,57 @@ GenReproducible == fam = "gen" =>
     LET n == VMin2(Len(m.o1), Len(m.o2))
     IN \A i \in 1..n : (m.o1[i] = m.o2[i]) <=> (m.g1.seed = m.g2.seed)
 
+\* =================================================================================== law
+\* the laws that let summaries of large draws be judged (Sampler.tla section 7), on the small scope
+LawIdx ==
+    /\ fam = "start" /\ "law" \in Families
+    /\ \E im \in 0..LawMax : \E n \in 0..LawLen : \E u \in BOOLEAN : c' = [imax |-> im, n |-> n, unique |-> u]
+    /\ fam' = "law" /\ ph' = "idx" /\ UNCHANGED m
+LawIdxSummary == (fam = "law" /\ ph = "idx") =>
+    \A k \in 0..LawLen : \A v \in [1..k -> (-1)..LawMax] : IdxThmSummary(c, v)
+LawPtClasses == {[lon360 |-> a, lat90 |-> b, w |-> w, rq |-> q, sv |-> [on |-> FALSE, a |-> 0, blo |-> 0, bhi |-> 0],
+                  rv |-> [on |-> FALSE, a |-> 0, blo |-> 0, bhi |-> 0]]
+                 : a \in {"in", "hi"}, b \in {"in", "lo"}, w \in {"in", "edge", "out"}, q \in {"eq", "ne"}}
+LawPtsLen ==
+    /\ fam = "start" /\ "law" \in Families
+    /\ \E k \in 1..LawLen : \E g \in BOOLEAN : c' = [getrad |-> g, r |-> EDeg(10), k |-> k]
+    /\ fam' = "law" /\ ph' = "ptslen" /\ UNCHANGED m
+LawPts ==
+    /\ fam = "law" /\ ph = "ptslen"
+    /\ \E pts \in [1..c.k -> LawPtClasses] : m' = [pts |-> pts]
+    /\ ph' = "pts" /\ UNCHANGED <<fam, c>>
+LawBlocks == (fam = "law" /\ ph = "pts") => \A k \in 0..Len(m.pts) : CapThmBlocks(c, m.pts, k)
+LawMonoLen ==
+    /\ fam = "start" /\ "law" \in Families
+    /\ \E k \in 1..LawLen : c' = [k |-> k]
+    /\ fam' = "law" /\ ph' = "monolen" /\ UNCHANGED m
+LawMono ==
+    /\ fam = "law" /\ ph = "monolen"
+    /\ \E us \in [1..c.k -> 0..2] : \E vs \in [1..c.k -> 0..2] : m' = [us |-> us, vs |-> vs]
+    /\ ph' = "mono" /\ UNCHANGED <<fam, c>>
+LawSorted == (fam = "law" /\ ph = "mono") => SmpThmSorted(m.us, m.vs)
+
+\* =================================================================================== scale
+\* the scale cases (exported; sizes across and at the block boundaries come from the constants)
+ScaleTables == {[kind |-> "density", x |-> <<0, 1, 2, 4, 5, 7>>, p |-> <<1, 2, 0, 0, 3, 1>>],
+                [kind |-> "cumulative", x |-> <<0, 1, 2, 4, 5, 7>>, p |-> <<0, 0, 1, 1, 3, 4>>],
+                [kind |-> "density", x |-> <<0, 2, 3, 4>>, p |-> <<2, 1, 3, 1>>]}
+ScaleCases ==
+    {[op |-> "idxs", imax |-> im, n |-> im \div 10, unique |-> u, src |-> s]
+        : im \in IdxScaleImax, u \in BOOLEAN, s \in {"legacy", "generator"}}
+    \cup {[op |-> "caps", n |-> n, rot |-> r, getrad |-> g, src |-> s]
+        : n \in ScaleNs, r \in BOOLEAN, g \in BOOLEAN, s \in {"legacy", "generator"}}
+    \cup {[op |-> "boxs", n |-> n, system |-> y, src |-> s] : n \in ScaleNs, y \in {"eq", "xyz"}, s \in {"legacy", "generator"}}
+    \cup {[op |-> "smps", n |-> n, kind |-> t.kind, x |-> t.x, p |-> t.p, src |-> s,
+           first |-> SmpTable(t, 0).cs[1], lr |-> SmpLeadRight(SmpTable(t, 0))]
+        : n \in SmpScaleNs, t \in ScaleTables, s \in {"legacy", "generator"}}
+ScaleChoose ==
+    /\ fam = "start" /\ "scale" \in Families
+    /\ \E sc \in ScaleCases : c' = sc
+    /\ fam' = "scale" /\ ph' = "case" /\ UNCHANGED m
+ScaleTheorems == (fam = "scale" /\ ph = "case" /\ c.op = "smps") =>
+    SmpValid(c) /\ ~SmpDegenerate(SmpTable(c, 0))
+
 \* =================================================================================== all
 Next == \/ SmpChooseGrid \/ SmpChooseDens \/ SmpMechSearch \/ SmpMechEvalStep
         \/ CholChooseN \/ CholChooseL \/ CholFactorStart \/ CholFactorCol \/ CholDraw \/ CholMultiply
@@ -261,8 +316,9 @@ Next == \/ SmpChooseGrid \/ SmpChooseDens \/ SmpMechSearch \/ SmpMechEvalStep
         \/ CapTurnPhi \/ CapFinish
         \/ BoxChooseLon \/ BoxChooseLat \/ BoxDrawCorner
         \/ GenStart \/ GenCall1 \/ GenCall2
+        \/ LawIdx \/ LawPtsLen \/ LawPts \/ LawMonoLen \/ LawMono \/ ScaleChoose
 NextExport == \/ SmpChooseGrid \/ SmpChooseDens \/ CholChooseN \/ CholChooseL \/ IdxChoose
-              \/ CapChooseCentre \/ CapChooseRad \/ BoxChooseLon \/ BoxChooseLat
+              \/ CapChooseCentre \/ CapChooseRad \/ BoxChooseLon \/ BoxChooseLat \/ ScaleChoose
 Spec == Init /\ [][Next]_vars
 
 Export == (DoExport /\ ph = "case") =>
@@ -271,5 +327,6 @@ Export == (DoExport /\ ph = "case") =>
       [] fam = "idx"  -> PrintT(<<"IDX", ToJson(c)>>)
       [] fam = "cap"  -> PrintT(<<"CAP", ToJson(c)>>)
       [] fam = "box"  -> PrintT(<<"BOX", ToJson(c)>>)
+      [] fam = "scale" -> PrintT(<<"SCALE", ToJson(c)>>)
       [] OTHER -> TRUE
 =============================================================================
